@@ -997,6 +997,10 @@ func callBuiltin(caller *frame, callpos token.Pos, fn *ssa.Builtin, args []value
 		return nil
 
 	case "delete": // delete(map[K]value, K)
+		if symDelete(caller, args[0], args[1]) {
+			return nil
+		}
+		caller.i.noteDelete(args[0], concKey(args[1]))
 		switch m := args[0].(type) {
 		case map[value]value:
 			delete(m, concKey(args[1]))
@@ -1035,7 +1039,7 @@ func callBuiltin(caller *frame, callpos token.Pos, fn *ssa.Builtin, args []value
 		case []value:
 			return len(x)
 		case map[value]value:
-			return len(x)
+			return len(x) + len(caller.i.symMaps[mapIdentity(x)])
 		case *hashmap:
 			return x.len()
 		case chan value:
@@ -1120,16 +1124,147 @@ func callBuiltin(caller *frame, callpos token.Pos, fn *ssa.Builtin, args []value
 
 func rangeIter(x value, t types.Type) iter {
 	switch x := x.(type) {
-	case map[value]value:
-		return &mapIter{iter: reflect.ValueOf(x).MapRange()}
-	case *hashmap:
-		return &hashmapIter{iter: reflect.ValueOf(x.entries()).MapRange()}
 	case string:
 		return &stringIter{Reader: strings.NewReader(x)}
 	case symstr:
 		return &symstrIter{s: x}
 	}
 	panic(fmt.Sprintf("cannot range over %T", x))
+}
+
+// snapshotIter iterates a snapshot of a map in a deterministic order
+// (insertion order), optionally permuted by a solver-visible choice.
+type snapshotIter struct {
+	keys, vals []value
+	i          int
+}
+
+func (it *snapshotIter) next() tuple {
+	if it.i >= len(it.keys) {
+		return []value{false, nil, nil}
+	}
+	i := it.i
+	it.i++
+	return []value{true, it.keys[i], it.vals[i]}
+}
+
+func mapIdentity(m value) uintptr {
+	switch m := m.(type) {
+	case map[value]value:
+		return reflect.ValueOf(m).Pointer()
+	case *hashmap:
+		return reflect.ValueOf(m).Pointer()
+	}
+	return 0
+}
+
+func (i *interpreter) noteInsert(m value, key value) {
+	id := mapIdentity(m)
+	if id == 0 {
+		return
+	}
+	if i.mapOrder == nil {
+		i.mapOrder = map[uintptr][]value{}
+	}
+	i.mapOrder[id] = append(i.mapOrder[id], key)
+}
+
+func keyEq(m value, a, b value) bool {
+	if hm, ok := m.(*hashmap); ok {
+		return a.(hashable).eq(hm.keyType, b)
+	}
+	return a == b
+}
+
+func (i *interpreter) noteDelete(m value, key value) {
+	id := mapIdentity(m)
+	ks := i.mapOrder[id]
+	for j, k := range ks {
+		if keyEq(m, k, key) {
+			i.mapOrder[id] = append(append([]value(nil), ks[:j]...), ks[j+1:]...)
+			return
+		}
+	}
+}
+
+func mapHas(m value, key value) bool {
+	switch m := m.(type) {
+	case map[value]value:
+		_, ok := m[key]
+		return ok
+	case *hashmap:
+		return m.lookup(key.(hashable)) != nil
+	}
+	return false
+}
+
+func mapGet(m value, key value) (value, bool) {
+	switch m := m.(type) {
+	case map[value]value:
+		v, ok := m[key]
+		return v, ok
+	case *hashmap:
+		v := m.lookup(key.(hashable))
+		return v, v != nil
+	}
+	return nil, false
+}
+
+func rangeMap(fr *frame, x value) iter {
+	it := &snapshotIter{}
+	id := mapIdentity(x)
+	seen := 0
+	for _, k := range fr.i.mapOrder[id] {
+		if v, ok := mapGet(x, k); ok {
+			it.keys = append(it.keys, k)
+			it.vals = append(it.vals, v)
+			seen++
+		}
+	}
+	for _, e := range fr.i.symMaps[id] {
+		it.keys = append(it.keys, e.key)
+		it.vals = append(it.vals, e.val)
+	}
+	n := len(it.keys)
+	px := fr.i.px
+	if px != nil && n >= 2 && n <= 4 && px.ex.cfg.Params["permute_maps"] != 0 {
+		fact := 1
+		for k := 2; k <= n; k++ {
+			fact *= k
+		}
+		// one order per map (and size) per path
+		if fr.i.mapPerm == nil {
+			fr.i.mapPerm = map[[2]uintptr]int{}
+		}
+		pk := [2]uintptr{id, uintptr(n)}
+		idx, chosen := fr.i.mapPerm[pk]
+		if !chosen {
+			v := px.tt.tVar(px.freshName("mapperm"), 64)
+			px.vars = append(px.vars, v)
+			px.ensureDefined(v)
+			px.assume(px.tt.and(px.tt.cmp(">=", true, v, px.tt.tConst(0, 64)), px.tt.cmp("<", true, v, px.tt.tConst(uint64(fact), 64))))
+			idx = int(px.concretize(v, true))
+			fr.i.mapPerm[pk] = idx
+		}
+		// decode the permutation index (Lehmer code)
+		ks := append([]value(nil), it.keys...)
+		vs := append([]value(nil), it.vals...)
+		var nk, nv []value
+		for m := n; m >= 1; m-- {
+			f := 1
+			for k := 2; k < m; k++ {
+				f *= k
+			}
+			j := idx / f
+			idx = idx % f
+			nk = append(nk, ks[j])
+			nv = append(nv, vs[j])
+			ks = append(ks[:j], ks[j+1:]...)
+			vs = append(vs[:j], vs[j+1:]...)
+		}
+		it.keys, it.vals = nk, nv
+	}
+	return it
 }
 
 // widen widens a basic typed value x to the widest type of its
@@ -1540,4 +1675,144 @@ func fandbits[F floaty](x, y F) F {
 		*(*uint64)(unsafe.Pointer(&x)) &= *(*uint64)(unsafe.Pointer(&y))
 	}
 	return x
+}
+
+
+// ---- maps with symbolic string keys: such entries live in a side list and
+// every lookup compares keys by solver-decided equality.
+
+type symEntry struct {
+	key symstr
+	val value
+}
+
+func isSymKey(k value) bool {
+	s, ok := k.(symstr)
+	if !ok {
+		return false
+	}
+	_, conc := normStr(s).(string)
+	return !conc
+}
+
+// symFind looks key up among symbolic entries and (if key is symbolic) among the
+// concrete string keys; returns (kind, index/concrete key): 0 none, 1 sym entry, 2 concrete key.
+func symFind(fr *frame, m value, key value) (int, int, value) {
+	id := mapIdentity(m)
+	px := fr.i.px
+	ents := fr.i.symMaps[id]
+	if len(ents) == 0 && !isSymKey(key) {
+		return 0, 0, nil
+	}
+	for j, e := range ents {
+		if px.decide(symstrEq(px, e.key, toSymstr(px, key))) {
+			return 1, j, nil
+		}
+	}
+	if isSymKey(key) {
+		if gm, ok := m.(map[value]value); ok {
+			for _, ck := range fr.i.mapOrder[id] {
+				cs, isStr := ck.(string)
+				if !isStr {
+					continue
+				}
+				if _, present := gm[ck]; !present {
+					continue
+				}
+				if px.decide(symstrEq(px, toSymstr(px, cs), key.(symstr))) {
+					return 2, 0, ck
+				}
+			}
+		}
+	}
+	return 0, 0, nil
+}
+
+func symLookup(fr *frame, instr *ssa.Lookup, m value, key value) (value, bool) {
+	gm, ok := m.(map[value]value)
+	if !ok || fr.i.px == nil {
+		return nil, false
+	}
+	if len(fr.i.symMaps[mapIdentity(m)]) == 0 && !isSymKey(key) {
+		return nil, false
+	}
+	if _, isStr := key.(string); !isStr && !isSymKey(key) {
+		return nil, false
+	}
+	kind, j, ck := symFind(fr, m, key)
+	var v value
+	found := kind != 0
+	switch kind {
+	case 1:
+		v = fr.i.symMaps[mapIdentity(m)][j].val
+	case 2:
+		v = gm[ck]
+	default:
+		if s, isStr := key.(string); isStr {
+			if cv, present := gm[s]; present {
+				v, found = cv, true
+			}
+		}
+	}
+	if !found {
+		v = zero(instr.X.Type().Underlying().(*types.Map).Elem())
+	}
+	if instr.CommaOk {
+		return tuple{v, found}, true
+	}
+	return v, true
+}
+
+func symUpdate(fr *frame, m value, key value, v value) bool {
+	gm, ok := m.(map[value]value)
+	if !ok || fr.i.px == nil {
+		return false
+	}
+	id := mapIdentity(m)
+	if len(fr.i.symMaps[id]) == 0 && !isSymKey(key) {
+		return false
+	}
+	if _, isStr := key.(string); !isStr && !isSymKey(key) {
+		return false
+	}
+	kind, j, ck := symFind(fr, m, key)
+	switch kind {
+	case 1:
+		fr.i.symMaps[id][j].val = v
+		return true
+	case 2:
+		gm[ck] = v
+		return true
+	}
+	if !isSymKey(key) {
+		return false // plain insertion of a concrete key
+	}
+	if fr.i.symMaps == nil {
+		fr.i.symMaps = map[uintptr][]symEntry{}
+	}
+	fr.i.symMaps[id] = append(fr.i.symMaps[id], symEntry{key: key.(symstr), val: v})
+	return true
+}
+
+func symDelete(fr *frame, m value, key value) bool {
+	gm, ok := m.(map[value]value)
+	if !ok || fr.i.px == nil {
+		return false
+	}
+	id := mapIdentity(m)
+	if len(fr.i.symMaps[id]) == 0 && !isSymKey(key) {
+		return false
+	}
+	kind, j, ck := symFind(fr, m, key)
+	switch kind {
+	case 1:
+		e := fr.i.symMaps[id]
+		fr.i.symMaps[id] = append(append([]symEntry(nil), e[:j]...), e[j+1:]...)
+		return true
+	case 2:
+		fr.i.noteDelete(m, ck)
+		delete(gm, ck)
+		return true
+	}
+	return isSymKey(key)
 }
